@@ -466,6 +466,14 @@ pub struct Oracle {
     pub deps_changed_epoch: HashMap<NodeId, u64>,
     /// the two maps above as they were when the first C01 violation was flagged
     pub at_first_c01: Option<(HashMap<NodeId, u64>, HashMap<NodeId, u64>)>,
+    /// firewalls strictly below each query (static closure), computed on demand
+    fw_below: HashMap<NodeId, Vec<NodeId>>,
+    /// epochs in which the *precondition* of finding C01-F1 was observed: an executor read a
+    /// query (not itself that firewall) above a firewall whose from-scratch value differed from
+    /// the value of its last execution and which had not been re-executed before the reader
+    /// started. Whether the read returned a wrong value is a different matter (it may be right
+    /// by coincidence): this is what a *latent* occurrence of the finding looks like.
+    pub f1_precondition_epochs: std::collections::BTreeSet<u64>,
 }
 
 impl Oracle {
@@ -489,6 +497,8 @@ impl Oracle {
             verified_epoch: HashMap::new(),
             deps_changed_epoch: HashMap::new(),
             at_first_c01: None,
+            fw_below: HashMap::new(),
+            f1_precondition_epochs: std::collections::BTreeSet::new(),
         }
     }
 
@@ -535,6 +545,44 @@ impl Oracle {
         self.stats.sessions += 1;
     }
 
+    /// See `f1_precondition_epochs`.
+    fn note_f1_precondition(&mut self, recs: &[ExecRecord]) {
+        if self.f1_precondition_epochs.contains(&self.epoch) {
+            return;
+        }
+        let prog = self.prog.clone();
+        let mut cands: Vec<(u64, NodeId)> = Vec::new(); // (reader's seq_enter, firewall)
+        for r in recs {
+            for (d, _) in &r.reads {
+                if !matches!(d.kind, Kind::N | Kind::F | Kind::P) {
+                    continue;
+                }
+                let fws = self.fw_below.entry(*d).or_insert_with(|| closure(&prog, &[*d]).into_iter().filter(|f| f.kind == Kind::F && f != d).collect());
+                for f in fws.iter() {
+                    cands.push((r.seq_enter, *f));
+                }
+            }
+        }
+        if cands.is_empty() {
+            return;
+        }
+        let mut fws: Vec<NodeId> = cands.iter().map(|c| c.1).collect();
+        fws.sort();
+        fws.dedup();
+        let now = self.peek(&fws);
+        for (enter, f) in cands {
+            let Some(last) = self.value_history.get(&f).and_then(|h| h.last().map(|e| e.1)) else { continue };
+            if now.get(&f).is_some_and(|v| *v != last) {
+                // not repaired before the reader started?
+                let repaired_before = recs.iter().any(|x| x.node == f && x.seq_exit < enter && matches!(&x.result, ExecResult::Value(v) if Some(v) == now.get(&f)));
+                if !repaired_before {
+                    self.f1_precondition_epochs.insert(self.epoch);
+                    return;
+                }
+            }
+        }
+    }
+
     /// Judge the executor invocations recorded since the last call.
     /// `in_session`: records were produced while a session was open (refresh).
     pub fn judge(&mut self, recs: &[ExecRecord], in_session: bool, allow_dropped: bool) {
@@ -554,6 +602,9 @@ impl Oracle {
                     }
                 }
             }
+        }
+        if !in_session {
+            self.note_f1_precondition(recs);
         }
         let mut drained: HashSet<NodeId> = HashSet::new();
         // reference values for everything mentioned
